@@ -457,8 +457,11 @@ class Run:
         cmd = [self.drive, "gen", "-seed", str(self.seed), "-tier", self.tier] + list(extra_args)
         return sh(cmd, timeout=getattr(self.mod, "GEN_TIMEOUT", 600), stdout_path=path, env=self.driver_env(), cwd=self.dir)
 
-    def exec_inputs(self, inp, outp):
+    def exec_inputs(self, inp, outp, single=False):
         to = getattr(self.mod, "EXEC_TIMEOUT", {"quick": 900, "thorough": 7200})[self.tier]
+        if single:
+            # one case alone: a hang must not eat the budget of the whole run
+            to = getattr(self.mod, "SINGLE_TIMEOUT", 180)
         return sh([self.drive, "exec"], timeout=to, stdin_path=inp, stdout_path=outp, env=self.driver_env(), cwd=self.dir)
 
     def model_eval(self, casesp, outp):
@@ -549,10 +552,10 @@ def evaluate(run, inp, n_corpus=0, label="main"):
             with open(one, "w") as f:
                 f.write(culprit + "\n")
             for _ in range(8):   # crashes that depend on goroutine scheduling may need several attempts
-                rc1, o1 = run.exec_inputs(one, os.path.join(run.dir, label + ".crash.out.txt"))
+                rc1, o1 = run.exec_inputs(one, os.path.join(run.dir, label + ".crash.out.txt"), single=True)
                 if rc1 != 0:
                     confirmed = True
-                    o = o1
+                    o = o1 if rc1 != 124 else "the process hangs on this input alone (no answer within the single-case deadline)\n" + o1
                     break
         run.violation("crash" if confirmed else "driver",
                       {"what": "the process running the implementation died (exit %d)%s" % (rc, " on this input, reproduced in isolation" if confirmed else ""),
@@ -639,7 +642,7 @@ def rerun_single(run, input_line, label):
         f.write(input_line.split(" => ")[0] + "\n")
     casesp = os.path.join(run.dir, label + ".cases.txt")
     modelp = os.path.join(run.dir, label + ".model.txt")
-    rc, o = run.exec_inputs(inp, casesp)
+    rc, o = run.exec_inputs(inp, casesp, single=True)
     if rc != 0:
         return None
     rc, o = run.model_eval(casesp, modelp)
